@@ -58,6 +58,7 @@ typedef void (*entry_t)(void*);
 // world is abandoned (fiber stacks are dropped) and the status says so.
 RunStatus run_world(const SchedConfig &cfg, const std::function<void()> &fn);
 bool in_world();
+void fail_world(const char *why);     // abandon the world with status ST_DEADLOCK and this note in front of the blocked report
 void set_stack_fill(int byte);     // content of the top of every fresh fiber stack (plain/trace flavours)
 
 // mix a value into the event-log hash (never draws randomness, never reads a clock)
